@@ -25,7 +25,7 @@ N21 = [l + a for l in T.LETTERS for a in ("", "#", "b")]
 def shards(tier, seed):
     out = []
     for L in T.LETTERS:
-        out.append({"name": "inverse-" + L, "kind": "inverse", "letter": L, "weight": 8,
+        out.append({"name": "inverse-" + L, "kind": "inverse", "letter": L, "weight": 8, "after_history": L in "C",
                     "acc": [0, 1, -1] if tier == "quick" else [0, 1, -1, 2, -2]})
     for L in T.LETTERS:
         out.append({"name": "triples-" + L, "kind": "triples", "letter": L, "weight": 5})
